@@ -257,8 +257,11 @@ pub fn run(rep: &mut Rep) {
         }
     }
     // (b2) the aaguid is a caller-supplied slice of any length: sweep it across the capacity too
-    for &al in &[0usize, 1, 15, 16, 17, 32, 100, 500, 600, 630, 637, 638, 639, 640, 641, 650, 676, 700, 5000] {
-        for &(idl, kl) in &[(0usize, 0usize), (1, 1), (10, 20), (16, 77), (0, 77)] {
+    for &al in &[0usize, 1, 15, 16, 17, 32, 100, 500, 600, 630, 637, 638, 639, 640, 641, 650, 676, 700, 5000, 65535, 65536, 65537, 65552, 131072] {
+        for &(idl, kl) in &[(0usize, 0usize), (1, 1), (10, 20), (16, 77), (0, 77), (0, 65536), (4, 65536 + 77), (0, 131072), (65536, 0)] {
+            if al >= 65535 && kl >= 65536 {
+                continue;
+            }
             for ext in [None, Some(1u64), Some((1u64 << crate::mon::c03::N_MC_EXT) - 1)] {
                 case += 1;
                 if !rep.mine(case) {
